@@ -271,7 +271,7 @@ class Tracer:
                         used = '_igraph' if (navis.config.use_igraph and x.__dict__.get('_igraph') is not None) else '_graph_nx'
                         if used in x.__dict__:
                             T.post(x, 'W:' + used)
-                        T.post(x, 'Y')
+                        T.post(x, f'R:{before[1]}' if before is not None else 'Y')
                 return r
             mod.reroot_skeleton = reroot_skeleton
 
@@ -670,7 +670,7 @@ class Run:
         v = self.spec.by_name.get(view)
         if v and st is not None and got != want:
             predicted_stale = not st['ents'].get(v['attr'], True)
-            if not v['wrapped'] and predicted_stale:
+            if view == 'simple' and not v['wrapped'] and predicted_stale:
                 sig = SIG_SIMPLE
             elif v['wrapped'] and predicted_stale and self.had_nonadm:
                 sig = SIG_ABA
@@ -783,12 +783,24 @@ class Run:
             self.read(v, f'final read of {v}')
 
 
+_FASTCORE = navis.utils.fastcore
+BACKENDS = {'default': (True, True), 'nx': (False, True), 'py': (True, False), 'py-nx': (False, False)}
+
+
 def run_case(ctx, case, spec):
-    R = Run(ctx, case, spec)
-    R.check('construction')
-    for i, e in enumerate(case['events']):
-        R.step(i, e)
-    R.finish()
+    use_ig, use_fc = BACKENDS[case.get('backend', 'default')]
+    saved = (navis.config.use_igraph, navis.utils.fastcore)
+    navis.config.use_igraph = use_ig and saved[0]
+    navis.utils.fastcore = _FASTCORE if use_fc else None
+    ctx.count('backend', case.get('backend', 'default'))
+    try:
+        R = Run(ctx, case, spec)
+        R.check('construction')
+        for i, e in enumerate(case['events']):
+            R.step(i, e)
+        R.finish()
+    finally:
+        navis.config.use_igraph, navis.utils.fastcore = saved
     ctx.count('history_len', min(len(case['events']) // 4 * 4, 40))
     ctx.count('trace_len', min(len(TR.hist[id(R.x)]) // 50 * 50, 1000))
 
@@ -842,17 +854,19 @@ def run(ctx):
     if not spec.sound:
         ctx.notes.append('generated spec violates the source-level obligations (soundB = false)')
     for c in CORPUS:
-        case = dict(kind='history', forest=c['forest'], events=c['events'], name=c['name'])
-        ctx.case(case)
-        run_case(ctx, case, spec)
+        for be in (['default', 'py-nx'] if c['name'].startswith(('aba', 'warm', 'type')) else ['default']):
+            case = dict(kind='history', forest=c['forest'], events=c['events'], name=c['name'], backend=be)
+            ctx.case(case)
+            run_case(ctx, case, spec)
     r = ctx.rng
-    nhist = ctx.budget(45, 420)
+    nhist = ctx.budget(70, 420)
     for k in range(nhist):
         big = (not ctx.quick()) and r.random() < 0.3
         n = r.randint(3, 25 if big else 12)
         f = gen_forest(r, n, ntrees=r.choice([1, 1, 1, 2, 3]) if n > 4 else 1)
         focus = r.choice([None, None, 'undo'])
-        case = dict(kind='history', forest=f, events=gen_events(r, r.randint(4, 24 if not ctx.quick() else 14), focus))
+        case = dict(kind='history', forest=f, events=gen_events(r, r.randint(4, 24 if not ctx.quick() else 14), focus),
+                    backend=r.choice(['default'] * 5 + ['nx', 'py', 'py-nx']))
         nontrivial = any(e['ev'] != 'read' for e in case['events']) and any(e['ev'] == 'read' for e in case['events'])
         ctx.case(case, nontrivial=nontrivial)
         run_case(ctx, case, spec)
